@@ -1013,11 +1013,13 @@ impl<'a> G<'a> {
                 self.op("cn_poll".to_string());
             }
             1 => {
-                self.op("cn_rderr".to_string());
+                let k = *self.rng.pick(&["UnexpectedEof", "UnexpectedEof", "ConnectionReset", "BrokenPipe", "TimedOut", "Other"]);
+                self.op(format!("cn_rderr {}", k));
                 self.op("cn_poll".to_string());
             }
             2 => {
-                self.op("cn_wrerr".to_string());
+                let k = *self.rng.pick(&["ConnectionReset", "BrokenPipe", "TimedOut", "Other"]);
+                self.op(format!("cn_wrerr {}", k));
                 self.op("cn_poll".to_string());
             }
             3 => {
